@@ -465,29 +465,72 @@ func recordedUnconditionally(v ssa.Value) (bool, string) {
 		base[cd.v] = true
 	}
 	n := 0
+	// the value and, when it is first parked in a local cell (a named result, a variable captured by a closure), the loads of
+	// that cell: parking it is not yet recording it
+	aliases := []ssa.Value{v}
+	cellStore := map[ssa.Instruction]bool{}
 	for _, r := range *v.Referrers() {
-		var blk *ssa.BasicBlock
-		switch in := r.(type) {
-		case ssa.CallInstruction:
-			blk = in.Block()
-		case *ssa.Return:
-			blk = in.Block()
-		case *ssa.Store:
-			blk = in.Block()
-		case *ssa.MakeInterface, *ssa.ChangeInterface:
-			blk = r.Block()
-		default:
+		if st, ok := r.(*ssa.Store); ok && st.Val == v {
+			if a, ok := st.Addr.(*ssa.Alloc); ok && a.Referrers() != nil {
+				cellStore[st] = true
+				for _, rr := range *a.Referrers() {
+					if u, ok := rr.(*ssa.UnOp); ok && u.Op == token.MUL && u.X == ssa.Value(a) {
+						if vals, _ := reachingStores(u, a); len(vals) > 0 {
+							for _, rv := range vals {
+								if rv == v {
+									aliases = append(aliases, u)
+								}
+							}
+						}
+					}
+				}
+			}
+		}
+	}
+	isNilOfAlias := func(cv ssa.Value) bool {
+		for _, a := range aliases {
+			if _, isNil := isNilCheck(cv, a); isNil {
+				return true
+			}
+		}
+		return false
+	}
+	for _, al := range aliases {
+		if al.Referrers() == nil {
 			continue
 		}
-		n++
-		for _, cd := range controlConds(blk) {
-			if base[cd.v] {
+		for _, r := range *al.Referrers() {
+			var blk *ssa.BasicBlock
+			switch in := r.(type) {
+			case ssa.CallInstruction:
+				blk = in.Block()
+			case *ssa.Return:
+				blk = in.Block()
+			case *ssa.Store:
+				if cellStore[in] {
+					continue
+				}
+				// putting a loaded result back into its own cell before the deferred calls run is bookkeeping of the return
+				if u, ok := al.(*ssa.UnOp); ok && in.Addr == u.X {
+					blk = in.Block()
+				} else {
+					blk = in.Block()
+				}
+			case *ssa.MakeInterface, *ssa.ChangeInterface:
+				blk = r.Block()
+			default:
 				continue
 			}
-			if _, isNil := isNilCheck(cd.v, v); isNil {
-				continue
+			n++
+			for _, cd := range controlConds(blk) {
+				if base[cd.v] {
+					continue
+				}
+				if isNilOfAlias(cd.v) {
+					continue
+				}
+				return false, "the error is recorded only under an additional condition (" + cd.v.String() + ")"
 			}
-			return false, "the error is recorded only under an additional condition (" + cd.v.String() + ")"
 		}
 	}
 	if n == 0 {
@@ -621,4 +664,145 @@ func checkDeferOverwrite(c *Ctx, rule string, funcs []*ssa.Function) {
 		}
 	}
 	c.Extra("deferred_result_assignments", n)
+}
+
+// errWraps decides whether the error value ret, returned by fn, carries the error value orig: it is orig, a struct literal with
+// orig stored in a field (a *ParseError with Cause: err), the result of fmt.Errorf / errors.Join with orig among its arguments,
+// or the result of a function of the module whose every return carries the corresponding parameter. 1 yes, 0 no, -1 unknown.
+func errWraps(fn *ssa.Function, ret ssa.Value, orig ssa.Value, depth int) (int, string) {
+	if depth > 3 {
+		return -1, "too deep"
+	}
+	if ret == orig {
+		return 1, ""
+	}
+	switch x := ret.(type) {
+	case *ssa.MakeInterface:
+		return errWraps(fn, x.X, orig, depth)
+	case *ssa.ChangeInterface:
+		return errWraps(fn, x.X, orig, depth)
+	case *ssa.Alloc:
+		// a struct literal: some field store holds orig
+		for _, r := range *x.Referrers() {
+			if fa, ok := r.(*ssa.FieldAddr); ok && fa.Referrers() != nil {
+				for _, rr := range *fa.Referrers() {
+					if st, ok := rr.(*ssa.Store); ok && st.Addr == ssa.Value(fa) {
+						if st.Val == orig {
+							return 1, ""
+						}
+						if mi, ok := st.Val.(*ssa.MakeInterface); ok && mi.X == orig {
+							return 1, ""
+						}
+						if ci, ok := st.Val.(*ssa.ChangeInterface); ok && ci.X == orig {
+							return 1, ""
+						}
+					}
+				}
+			}
+		}
+		return 0, "a freshly built error value that does not hold the callback's error"
+	case *ssa.Phi:
+		worst := 1
+		why := ""
+		for _, e := range x.Edges {
+			r, w := errWraps(fn, e, orig, depth+1)
+			if r < worst {
+				worst, why = r, w
+			}
+		}
+		return worst, why
+	case *ssa.UnOp:
+		if x.Op == token.MUL {
+			if a, ok := x.X.(*ssa.Alloc); ok {
+				vals, entry := reachingStores(x, a)
+				if entry || len(vals) == 0 {
+					// a local that something else filled in (errors.As target): not the callback's error itself
+					return 0, "a value read from a local variable that was filled in by a call (an error picked out of the callback's error, not that error)"
+				}
+				worst, why := 1, ""
+				for _, v := range vals {
+					r, w := errWraps(fn, v, orig, depth+1)
+					if r < worst {
+						worst, why = r, w
+					}
+				}
+				return worst, why
+			}
+		}
+		return -1, "a loaded value"
+	case *ssa.Call:
+		name := staticCalleeName(x)
+		argHas := func() bool {
+			for _, a := range x.Call.Args {
+				if a == orig {
+					return true
+				}
+				if mi, ok := a.(*ssa.MakeInterface); ok && mi.X == orig {
+					return true
+				}
+				// variadic: the backing array's element stores
+				if sl, ok := a.(*ssa.Slice); ok {
+					if arr, ok := sl.X.(*ssa.Alloc); ok && arr.Referrers() != nil {
+						for _, r := range *arr.Referrers() {
+							if ia, ok := r.(*ssa.IndexAddr); ok && ia.Referrers() != nil {
+								for _, rr := range *ia.Referrers() {
+									if st, ok := rr.(*ssa.Store); ok {
+										v := st.Val
+										if mi, ok := v.(*ssa.MakeInterface); ok {
+											v = mi.X
+										}
+										if ci, ok := v.(*ssa.ChangeInterface); ok {
+											v = ci.X
+										}
+										if v == orig {
+											return true
+										}
+									}
+								}
+							}
+						}
+					}
+				}
+			}
+			return false
+		}
+		switch name {
+		case "fmt.Errorf", "errors.Join":
+			if argHas() {
+				return 1, ""
+			}
+			return 0, "a new error that does not mention the callback's error"
+		}
+		callee := x.Call.StaticCallee()
+		if callee == nil || len(callee.Blocks) == 0 || !strings.HasPrefix(fnPkgPath(callee), modPath) {
+			return -1, "result of a call that is not followed"
+		}
+		pi := -1
+		for i, a := range x.Call.Args {
+			if a == orig && i < len(callee.Params) {
+				pi = i
+			}
+		}
+		if pi < 0 {
+			return -1, "the callback's error is not an argument of the call"
+		}
+		worst, why := 1, ""
+		n := 0
+		for _, b := range callee.Blocks {
+			r, ok := b.Instrs[len(b.Instrs)-1].(*ssa.Return)
+			if !ok || len(r.Results) == 0 {
+				continue
+			}
+			n++
+			res, w := errWraps(callee, retOperand(r, len(r.Results)-1), callee.Params[pi], depth+1)
+			if res < worst {
+				worst, why = res, shortFn(callee)+" returns "+w
+			}
+		}
+		if n == 0 {
+			return -1, "callee without returns"
+		}
+		return worst, why
+	}
+	return -1, "a value this rule does not follow"
 }
